@@ -724,9 +724,13 @@ func runCancelScenario(sc cancelScenario, rng *hx.Rand) cancelOutcome {
 	var armed atomic.Bool
 	const cancelAtSerial = 10 // the serial pass is cancelled by its 10th node function
 	const gateAtSerial = 5    // ... or held at its 5th while another goroutine cancels
-	vars := make([]incr.VarIncr[int], sc.W)
-	obs := make([]incr.ObserveIncr[int], sc.W)
-	want := make([]int, sc.W)
+	// sc.W nodes for the cancelled pass, plus one "probe" that the driver makes stale only
+	// after it has seen the cancelled call return, so that the follow-up Stabilize has a
+	// node function to run whatever the cancelled pass left in the recompute heap
+	vars := make([]incr.VarIncr[int], sc.W+1)
+	obs := make([]incr.ObserveIncr[int], sc.W+1)
+	want := make([]int, sc.W+1)
+	probe := sc.W
 	for i := range vars {
 		vars[i] = incr.Var(g, rng.Range(0, 1000))
 		m := incr.MapContext(g, vars[i], func(ctx context.Context, x int) (int, error) {
@@ -759,8 +763,12 @@ func runCancelScenario(sc cancelScenario, rng *hx.Rand) cancelOutcome {
 	}
 	for i := range vars {
 		x := rng.Range(1001, 1<<20)
-		vars[i].Set(x)
 		want[i] = x + 1
+		if i == probe {
+			want[i] = vars[i].Value() + 1
+			continue
+		}
+		vars[i].Set(x)
 	}
 	armed.Store(true)
 	if sc.Mode == "before-the-call" {
@@ -828,6 +836,11 @@ func runCancelScenario(sc cancelScenario, rng *hx.Rand) cancelOutcome {
 		}
 	}
 	// a Stabilize issued right now: turned away, or let in -- then it must not overlap
+	if returned {
+		x := rng.Range(1001, 1<<20)
+		vars[probe].Set(x) // the caller has its answer: as far as it can tell no pass is in progress
+		want[probe] = x + 1
+	}
 	followCtx := context.WithValue(context.Background(), passKey{}, followUpPass)
 	followDone := make(chan error, 1)
 	go func() { followDone <- g.Stabilize(followCtx) }()
